@@ -4,6 +4,8 @@ import (
 	"fmt"
 	"regexp"
 	"strings"
+	"sync"
+	"sync/atomic"
 	"time"
 
 	"github.com/intuitivelabs/sipsp"
@@ -123,6 +125,14 @@ func (cs *c19Case) render() (msg []byte, nh int, want []sipsp.HdrSigId, cid, via
 	return []byte(sb.String()), nh, want, cid, via
 }
 
+// outcome counters (verdict of GetMsgSig), merged into the evidence
+var c19Out sync.Map
+
+func c19Outcome(k string) {
+	v, _ := c19Out.LoadOrStore(k, new(int64))
+	atomic.AddInt64(v.(*int64), 1)
+}
+
 var sigStrRe = regexp.MustCompile(`^$|^[0-9a-f]{1,9}I[0-9a-f]{6}F[0-9a-f]{4}V[0-9a-f]{4}$`)
 
 func parseForSig(msg []byte, capn, cut int) (*sipsp.PSIPMsg, sipsp.ErrorHdr) {
@@ -179,6 +189,7 @@ func evalC19(cs *c19Case) (vs []*Violation) {
 	if capn < 0 {
 		capn = 10
 	}
+	c19Outcome(errName(se))
 	if se == sipsp.ErrHdrTrunc {
 		if capn >= nh {
 			add("truncated-only-when-headers-do-not-fit", "trunc", fmt.Sprintf("capacity %d headers %d", capn, nh))
@@ -381,6 +392,12 @@ func checkC19(r *Run) {
 		r.St.merge(c0.st)
 		r.St.sample(fmt.Sprintf("%q", msg))
 	}
+	defer func() {
+		c19Out.Range(func(k, v any) bool {
+			r.St.Outcomes["GetMsgSig:"+k.(string)] += atomic.LoadInt64(v.(*int64))
+			return true
+		})
+	}()
 	for _, ord := range [][]int{{0, 1, 2, 3, 4, 5, 6, 7}, {3, 5}, {}} {
 		c0 := &enumCtx{r: r, st: newStats()}
 		run(c0, &c19Case{Method: "INVITE", Order: ord, Reply: true, Repeat: -1, Cap: -1, Cut: -1})
